@@ -33,12 +33,22 @@ impl Rat {
     pub fn int(n: i64) -> Rat {
         Rat(n, 1)
     }
+    /// Rat(0, -d) is the floating-point negative zero: the number 0 in exact arithmetic, -0.0 in f64 / f32
+    pub fn neg_zero() -> Rat {
+        Rat(0, -1)
+    }
     pub fn big(self) -> BigRational {
+        if self.0 == 0 && self.1 < 0 {
+            return BigRational::from_integer(BigInt::from(0));
+        }
         assert!(self.1 > 0, "Rat denominator must be positive");
         BigRational::new(BigInt::from(self.0), BigInt::from(self.1))
     }
     /// Nearest f64 (correctly rounded: both operands are exactly representable).
     pub fn f64(self) -> f64 {
+        if self.0 == 0 && self.1 < 0 {
+            return -0.0;
+        }
         assert!(self.1 > 0 && self.0.abs() < (1i64 << 53) && self.1 < (1i64 << 53), "Rat out of exact f64 range: {:?}", self);
         self.0 as f64 / self.1 as f64
     }
@@ -77,6 +87,13 @@ pub struct Case {
     /// clause-specific integers (positions, exponents, counts, long-stream seeds)
     #[serde(default, skip_serializing_if = "Vec::is_empty")]
     pub ints: Vec<i64>,
+    /// binary exponent of the input unit: clauses that say so multiply every stream value by 2^e2 (units far outside what
+    /// an i64 ratio can express, down to the subnormal range)
+    #[serde(default, skip_serializing_if = "is_zero_i32")]
+    pub e2: i32,
+}
+fn is_zero_i32(x: &i32) -> bool {
+    *x == 0
 }
 impl Case {
     pub fn spec(&self) -> &Spec {
